@@ -129,6 +129,9 @@ impl<'a> RoundTrip<'a> {
 	pub fn verify(&self, desc: &str, container: &str, reader: &dyn TilesReaderTrait, stored: &TileMap, expect_pyramid: &TileBBoxPyramid, format: TileFormat, comp: TileCompression, tj: Option<&TileJSON>, rng: &mut Rng, viol: &mut Vec<V>, stats: &mut BTreeMap<String, u64>) {
 		let desc = desc.to_string();
 		let p = reader.get_parameters();
+		if container == "mbtiles" { for z in 0..32u8 { let rows: Vec<String> = stored.iter().filter(|((tz, _, _), _)| *tz == z).map(|((_, x, y), _)| format!("{x}:{}", ((1u64 << z) - 1) as u32 - y)).collect(); if rows.is_empty() || rows.len() > 300 { continue; }
+			let mut rows = rows; rows.sort(); let mut b = p.bbox_pyramid.get_level_bbox(z).clone(); if !b.is_empty() { use versatiles_core::utils::TransformCoord; b.flip_y(); }
+			self.lines.borrow_mut().push(format!("mbrows {} => {}", rows.join(","), if b.is_empty() { "none".to_string() } else { format!("{} {} {} {}", b.x_min, b.y_min, b.x_max, b.y_max) })); } }
 		if p.tile_format != format || p.tile_compression != comp {
 			viol.push(V { kind: "parameters".into(), input: desc.clone(), detail: format!("declared {:?}/{:?}, got {:?}/{:?}", format, comp, p.tile_format, p.tile_compression) });
 		}
